@@ -632,7 +632,7 @@ class Executor:
                 cj = self.spec.eval_conjuncts(cl, env)
             except Exception as e:
                 from .speceval import SpecError
-                if isinstance(e, SpecError) and 'unknown identifier' in str(e):
+                if isinstance(e, SpecError) and ('unknown identifier' in str(e) or 'no field' in str(e) or 'unknown qualified name' in str(e)):
                     continue   # a local that does not exist on this path (e.g. an early return)
                 raise
             for lbl, t in cj:
@@ -1606,6 +1606,8 @@ class Executor:
         impls = t.get('impls') or (self.m.types.get(self.m.under(v.t)) or {}).get('impls')
         if not impls:
             return
+        if not (t.get('pkg') or '').endswith('/internal/parser'):
+            return   # the well-formedness predicates are about AST nodes
         from . import specfuns
         env = self.spec.env_for(frame, st, st, None)
         excl = self.db.wfexclude.get(t.get('name', ''), set())
@@ -2209,6 +2211,13 @@ class Executor:
         handled = lib.invoke(self, st, frame, ins, recv, method, args)
         if handled is not lib.NOT_HANDLED:
             return cont(st, frame, handled)
+        if method == 'Error' and recv.t == 'error' and not args:
+            # the text of an error: a function of the error value (the formatting code is not followed)
+            self.trusted.add('error texts: err.Error() is an uninterpreted function of the error value')
+            f = m.uf('errtext', m.Any, m.Str)
+            r = f(a)
+            st.assume(m.slen(r) >= 0)
+            return cont(st, frame, Val('string', [r]))
         targets = []
         for c in m.any_types:
             tab = self.prog.methods.get(c) or {}
